@@ -1,0 +1,16 @@
+//go:build verif
+
+package share
+
+import (
+	headerServ "github.com/celestiaorg/celestia-node/nodebuilder/header"
+	"github.com/celestiaorg/celestia-node/share"
+	"github.com/celestiaorg/celestia-node/share/shwap"
+)
+
+// VerifNewModule exposes the unexported share module constructor to the verification harness
+// (build tag verif only): the harness injects its own getter / header service and drives the
+// real GetRange -> newGetRangeResult path.
+func VerifNewModule(getter shwap.Getter, avail share.Availability, hs headerServ.Module) Module {
+	return newShareModule(getter, avail, hs)
+}
